@@ -51,6 +51,12 @@ Theorem c20_pub_suffix_copy_differs :
   g_ian_pub_suffix (mkGview true false true true false [] [] true [] [s2b "example.com"]) = 5.
 Proof. exact gn_pub_suffix_copy_differs. Qed.
 
+(* the raw-GeneralNames walkers (IA5 content of dNSNames and of URIs, empty names): SAN and IAN copies agree on the
+   same members *)
+Theorem c20_raw_twins : forall v, rv_san_ext v = rv_ian_ext v -> rv_san v = rv_ian v ->
+  r_san_dns_not_ia5 v = r_ian_dns_not_ia5 v /\ r_san_uri_not_ia5 v = r_ian_uri_not_ia5 v /\ r_san_empty_name v = r_ian_empty_name v.
+Proof. exact raw_twins_agree. Qed.
+
 Print Assumptions c20_label_pairs.
 Print Assumptions c20_uri_host_pair.
 Print Assumptions c20_uri_host_old_refuted.
@@ -59,3 +65,4 @@ Print Assumptions c20_limit_pairs.
 Print Assumptions c20_name_twins.
 Print Assumptions c20_san_ian_twins.
 Print Assumptions c20_pub_suffix_copy_differs.
+Print Assumptions c20_raw_twins.
